@@ -45,7 +45,7 @@ func init() {
 		Weights: w(defaultWeights, map[string]int{"ack": 14, "nack": 14, "extend": 10, "dead": 10, "ack_batch": 8, "nack_batch": 8, "dead_batch": 6, "dequeue": 30, "advance": 22, "cancel": 6, "requeue": 6, "resume": 4})},
 		"histories in which every lease id ever issued (plus blank, unknown, duplicated ids) is presented again after expiry, re-lease, cancel/requeue or settlement; oracle: effect iff current unexpired lease, else conflict and no change beyond releasing the expired lease", 16000, 1000000)
 	reg("C05", StoreProfile{Backends: both, Limits: false, Retention: true, MaxSteps: 45, ExplicitTS: true,
-		Weights: w(defaultWeights, map[string]int{"dequeue": 40, "advance": 30, "nack": 15, "extend": 8, "nack_batch": 5, "enqueue": 25})},
+		Weights: w(defaultWeights, map[string]int{"dequeue": 40, "advance": 30, "nack": 15, "extend": 8, "nack_batch": 5, "enqueue": 25, "clockback": 3})},
 		"dequeue/nack/extend/expiry histories against a controlled clock; oracle at every dequeue: returned within may-set, count >= min(batch, must-set) where must = queued and due, or lease expired >= 10 ms ago (0 ms memory); not-before bounds exact", 16000, 1000000)
 	reg("C12", StoreProfile{Backends: both, Limits: true, Retention: true, Pressure: true, MaxSteps: 40, ExplicitTS: true,
 		Weights: w(defaultWeights, map[string]int{"enqueue": 45, "enqueue_batch": 18, "dequeue": 14, "ack": 6, "requeue": 4, "resume": 3})},
